@@ -494,6 +494,8 @@ class ExprGen:
         if len(base) == 0 or len(base) > self.maxw:
             return self.leaf()
         e = self.slice_of(base)
+        if isinstance(base, (Cat, Replicate)) and r.random() < 0.5:
+            e = _Slice(base, *boundary_slice(r, base))
         if r.random() < 0.3:
             e = self.slice_of(e)
         return e
@@ -503,6 +505,25 @@ class ExprGen:
         if c:
             return self.rng.choice(c)
         return Constant(self.rng.randint(0, 3))
+
+
+def boundary_slice(r, base):
+    """(lo, hi) of a slice of a Cat / Replicate whose ends sit ON or ONE BIT OFF an element boundary (the corners
+    of `_lower_slice_cat` / `_lower_slice_replicate`: ends exactly at an element's end, one bit short, one bit
+    into the next element)."""
+    n = len(base)
+    if isinstance(base, Cat):
+        bounds, acc = [0], 0
+        for e in base.l:
+            acc += len(e)
+            bounds.append(acc)
+    else:
+        w = len(base.v)
+        bounds = [k * w for k in range(base.n + 1)] if w else [0, n]
+    k = r.randrange(len(bounds) - 1)
+    lo = min(max(bounds[k] + r.choice([0, 0, 1, -1]), 0), n - 1)
+    hi = min(max(bounds[min(k + r.choice([1, 1, 2]), len(bounds) - 1)] + r.choice([0, 1, -1]), lo + 1), n)
+    return lo, hi
 
 
 def make_sigs(rng, n, maxw=9, p_signed=0.35, prefix="s"):
@@ -1124,6 +1145,9 @@ def random_module(rng, lowered_exprs=False, maxw=9, tame=False):
     if rng.random() < 0.3:
         m.clock_domains.cd_b = ClockDomain("b")
         doms.append("b")
+        if rng.random() < 0.4:
+            m.clock_domains.cd_c = ClockDomain("c")
+            doms.append("c")
     ps = 0.08 if tame else 0.3
     ins = make_sigs(rng, rng.randint(2, 4), maxw=maxw, prefix="i", p_signed=ps)
     regs = []
@@ -1147,6 +1171,12 @@ def random_module(rng, lowered_exprs=False, maxw=9, tame=False):
         readable = readable + [c]
     eg = ExprGen(rng, list(readable), lowered=lowered_exprs, tame=tame)
     sg = StmtGen(rng, eg)
+    if rng.random() < 0.3:
+        # a clock read as data (ClockSignal is lowered to the domain's clk signal by convert)
+        from migen.fhdl.structure import ClockSignal
+        ck = Signal(name_override="ckd")
+        m.comb += ck.eq(ClockSignal(rng.choice(doms)) ^ ins[0][0])
+        combs.append(ck)
     dom_of = [rng.choice(doms) for _ in regs]       # every register is driven from one clock domain
     for d in doms:
         rs = [r_ for r_, dn in zip(regs, dom_of) if dn == d]
@@ -1471,7 +1501,10 @@ class SafeGen:
         if n == 0 or n > 40:
             return self.atom()
         lo = 0 if full else r.randrange(0, n)
-        e = _Slice(base, lo, n if full else r.randint(lo + 1, n))
+        hi = n if full else r.randint(lo + 1, n)
+        if not full and isinstance(base, (Cat, Replicate)) and r.random() < 0.5:
+            lo, hi = boundary_slice(r, base)
+        e = _Slice(base, lo, hi)
         if r.random() < 0.3:
             n = len(e)
             lo = r.randrange(0, n)
@@ -1623,17 +1656,45 @@ class PyVSim:
                 v_size(t)
                 self.state[i] = v_assign_value(t, {}, d["w"])
         self.assigns, self.combs, self.syncs = [], [], []
+        driven = {}          # wire id -> mask of the bits some continuous assignment drives
         for it in mt.items:
             if it[0] == "assign":
                 l, p = build_vtree(it, 1)
                 r, p = build_vtree(it, p)
                 self.assigns.append((v_size(l), v_size(r)))
+                parts = []
+                try:
+                    self.lhs_parts(l, 0, parts)
+                except ParseError:
+                    parts = []
+                for i, lo, ln, _ in parts:
+                    if not isinstance(i, tuple):
+                        driven[i] = driven.get(i, 0) | (((1 << ln) - 1) << lo)
             elif it[0] == "comb":
                 body, p = self.stmts(it, 2, int(it[1]))
                 self.combs.append(body)
             else:
                 body, p = self.stmts(it, 3, int(it[2]))
                 self.syncs.append((int(it[1]), body))
+
+        # a `wire` (internal or output port) some of whose bits no continuous assignment drives is Z/X in Verilog,
+        # whatever the simulator holds there (its reset value): name -> (width, mask of undriven bits)
+        self.undriven = {}
+        for name, d in mt.decls.items():
+            if d["kind"] in ("w", "ow"):
+                i = name_ids[name]
+                miss = ((1 << d["w"]) - 1) & ~driven.get(i, 0)
+                if miss:
+                    self.undriven[name] = (d["w"], miss)
+
+    def undriven_report(self):
+        """Failing-input fragment for a text with partly undriven wires, or None."""
+        if not self.undriven:
+            return None
+        return {"undriven_wire_bits": {n: "%d'b%s" % (w, "".join("x" if (m >> k) & 1 else "-" for k in reversed(range(w))))
+                                       for n, (w, m) in self.undriven.items()},
+                "what": "the text declares a wire some bits of which no continuous assignment drives (Z/X in Verilog, "
+                        "different from any value); the simulator holds the signal's reset value there"}
 
     def stmts(self, t, p, n):
         out = []
